@@ -45,7 +45,7 @@ def history(hseed, level):
                 r.choice([1, 2]), 'h,h', 'i,j')
         elif c == 'itmd':
             it = Intermediates().available[r.choice(['t2_1', 't1_2', 't2_2',
-                                                     'p0_2_oo'])]
+                                                     'p0_2_oo', 'p0_3_oo'])]
             it.expand_itmd(fully_expand=r.random() < 0.5)
         elif c == 're':
             GroundState(Operators('re')).energy(2)
@@ -111,6 +111,14 @@ def do_request(name, shared):
         r = Intermediates().available['t2_2'].expand_itmd(
             indices='ijab', fully_expand=False).sympy
         tg = 'ijab'
+    elif name == 'itmd_p03oo':
+        # two successive full expansions of one intermediate (the second with
+        # target names that are plain low letters): served from the cached base
+        # version, whose contracted indices have to be renewed on every request
+        it = Intermediates().available['p0_3_oo']
+        it.expand_itmd(fully_expand=True)
+        r = it.expand_itmd(indices='lm', fully_expand=True).sympy
+        tg = 'lm'
     elif name == 'itmd_t1_3':
         r = Intermediates().available['t1_3'].expand_itmd(
             indices='ia', fully_expand=True).sympy
@@ -295,12 +303,39 @@ def main():
         setattr(GroundState, meth, wrapper)
     watch('psi')
     watch('norm_factor')
+    # ... and neither do two expansions of registered intermediates
+    from adcgen.intermediates import RegisteredIntermediate
+    itmd_seen = {}
+    itmd_depth = [0]
+    orig_expand = RegisteredIntermediate.expand_itmd
+
+    def expand_watch(self, *a, **kw):
+        itmd_depth[0] += 1
+        try:
+            out = orig_expand(self, *a, **kw)
+        finally:
+            itmd_depth[0] -= 1
+        if itmd_depth[0] == 0 and hasattr(out, 'sympy'):
+            tgt = set(out.provided_target_idx or ())
+            me = f'{type(self).__name__}.expand_itmd{a}{kw or ""}'
+            contracted = {s for s in out.sympy.atoms(Index) if s not in tgt}
+            if out.provided_target_idx is not None:
+                for s in contracted:
+                    if s in itmd_seen:
+                        clash.append(f'{me} shares contracted index {s} with an '
+                                     f'earlier {itmd_seen[s]}')
+                        break
+                for s in contracted:
+                    itmd_seen[s] = me
+        return out
+    RegisteredIntermediate.expand_itmd = expand_watch
     h = history(hseed, level)
     done, shared = h if h else ([], None)
     r, tg, real, code = do_request(request, shared)
     out = {'request': request, 'history': done, 'hseed': hseed,
            'hashseed': os.environ.get('PYTHONHASHSEED'),
-           'psi_norm_calls': len(seen_idx), 'clashes': clash[:3]}
+           'psi_norm_calls': len(seen_idx), 'clashes': clash[:3],
+           'itmd_indices_monitored': len(itmd_seen)}
     if code is not None:
         out['text'] = code
         out['terms'] = code.count('\n')
